@@ -452,6 +452,7 @@ type GenCfg struct {
 	Garbage    int  // per mille of variable values that are arbitrary text
 	LeadSaves  bool // the script starts with one to three save statements
 	OtherAssetLead bool // the script starts with a send of ANOTHER asset from one of the main send's source accounts
+	FreePrefix     bool // OneSend profiles: one to three unrestricted statements (sends of any shape, saves) come first
 	SelfLead       bool // the script starts with a send whose source is also its destination (one of the main send's source accounts)
 	SmallPool  bool // only three account names: repetition within one source becomes the norm
 	NoWorldVars  bool // account variables are never bound to "world"
@@ -1287,6 +1288,26 @@ func (g *Gen) Program() *GProgram {
 	g.asset = "USD"
 	g.flag = g.r.Chance(1, 2)
 	n := 1 + g.r.Intn(g.cfg.MaxStmts)
+	if g.cfg.OneSend && g.cfg.FreePrefix {
+		// whatever happened before, the judged statement must behave according to the balances left
+		saved := g.cfg
+		g.cfg.SrcOnly, g.cfg.DstOnly, g.cfg.OneSend = false, false, false
+		g.cfg.SendAll = 120
+		g.cfg.SmallPool = true
+		k := 1 + g.r.Intn(3)
+		for i := 0; i < k; i++ {
+			if g.r.Chance(3, 4) {
+				g.prog.Stmts = append(g.prog.Stmts, g.sendStmt())
+			} else {
+				g.prog.Stmts = append(g.prog.Stmts, g.saveStmt())
+			}
+		}
+		small := g.cfg.SmallPool
+		g.cfg = saved
+		g.cfg.SmallPool = small
+		g.prog.Stmts = append(g.prog.Stmts, g.sendStmt())
+		return g.prog
+	}
 	if g.cfg.OneSend || g.cfg.LeadSaves {
 		// the send is generated first so that the saves that precede it can aim at its sources
 		send := g.sendStmt()
